@@ -47,6 +47,9 @@ func (e *Exec) Decide(c *Term) bool {
 		return c.k != 0
 	}
 	tc := e.tc
+	if e.inMerge > 0 {
+		return e.mergeDecide(c)
+	}
 	if e.replaying() {
 		d := e.prefix[e.pos] != 0
 		e.pos++
@@ -127,6 +130,9 @@ func (e *Exec) Concretize(t *Term, isLen bool, what string) int64 {
 		return int64(t.k)
 	}
 	tc := e.tc
+	if e.inMerge > 0 {
+		panic(mergeAbort{})
+	}
 	if e.replaying() {
 		v := e.prefix[e.pos]
 		e.pos++
@@ -191,6 +197,9 @@ func (e *Exec) Concretize(t *Term, isLen bool, what string) int64 {
 func (e *Exec) Choice(k int) int {
 	if k <= 1 {
 		return 0
+	}
+	if e.inMerge > 0 {
+		panic(mergeAbort{})
 	}
 	if e.replaying() {
 		v := e.prefix[e.pos]
@@ -430,18 +439,32 @@ func (e *Exec) now() *Term {
 }
 
 func (e *Exec) cover(label string) {
-	if e.covers[label] {
+	e.covers[label] = true
+}
+
+// flushCovers records a witness (complete path) for every cover label reached
+// on this path that has no witness yet.
+func (e *Exec) flushCovers() {
+	var need []string
+	for l := range e.covers {
+		if !e.eng.hasCover(e.h, l) {
+			need = append(need, l)
+		}
+	}
+	if len(need) == 0 {
 		return
 	}
 	if !e.modelOK {
 		r, m := e.sv.Check(nil, true)
-		if r != Sat {
+		if r != Sat || m == nil {
 			return
 		}
 		e.model, e.modelOK = m, true
 	}
-	e.covers[label] = true
-	e.eng.noteCover(e.h, label, e.snapshotDraws(e.model), e.decisions)
+	d := e.snapshotDraws(e.model)
+	for _, l := range need {
+		e.eng.noteCover(e.h, l, d, e.decisions)
+	}
 }
 
 func (e *Exec) expectPanic(caller *frame, f Value) (res Value) {
@@ -522,6 +545,12 @@ func (eng *Engine) runPath(sv *Solver, h *Harness, prefix []int64) (res PathResu
 	eng.injectGlobals(e)
 	e.callSSA(nil, h.fn, nil, nil)
 	res.Status = "returned"
+	if e.pos < len(e.prefix) {
+		res.Status = "engine-error"
+		res.Msg = "decision prefix not consumed (non-deterministic re-execution)"
+		return
+	}
+	e.flushCovers()
 	return
 }
 
